@@ -15,6 +15,18 @@ pub enum AnyModel<T: Sc> {
     Const(ConstModel<T>),
     Dyn(Box<dyn SeparableNonlinearModel<ScalarType = T, Error = HErr> + Send + Sync>),
 }
+/// `FitStatistics<Model>: Clone` carries the bound `Model: Clone` although no model is stored in it;
+/// the harness' model enum satisfies the bound (only the hand-written variants can really be cloned)
+impl<T: Sc> Clone for AnyModel<T> {
+    fn clone(&self) -> Self {
+        match self {
+            AnyModel::Hand(m) => AnyModel::Hand(m.clone()),
+            AnyModel::Const(m) => AnyModel::Const(m.clone()),
+            _ => panic!("this harness model cannot be cloned"),
+        }
+    }
+}
+
 impl<T: Sc> SeparableNonlinearModel for AnyModel<T> {
     type ScalarType = T;
     type Error = HErr;
@@ -133,6 +145,11 @@ pub struct StatVals<T: Sc> {
     pub sigma: T,
     pub lin_var: DVector<T>,
     pub nonlin_var: DVector<T>,
+    /// the same accessors read from a CLONE of the statistics object
+    pub clone_covariance: DMatrix<T>,
+    pub clone_lin_var: Result<DVector<T>, String>,
+    pub clone_nonlin_var: Result<DVector<T>, String>,
+    pub clone_chi2: T,
     pub stats: Box<dyn Fn(T) -> Result<DVector<T>, String> + Send>,
 }
 
@@ -208,7 +225,13 @@ macro_rules! impl_dynp {
                 crate::pbuilder::weights_str(self.weights())
             }
             fn fit(self: Box<Self>, lm: LevenbergMarquardt<T>) -> FitOut<T> {
-                let solver = LevMarSolver::<WM<T>, $mrhs>::with_solver(lm);
+                // the library's own default solver whenever the default configuration is asked for (the defaults
+                // of `impl Default for LevMarSolver` are part of what is checked)
+                let solver = if lm == LevenbergMarquardt::new() {
+                    LevMarSolver::<WM<T>, $mrhs>::default()
+                } else {
+                    LevMarSolver::<WM<T>, $mrhs>::with_solver(lm)
+                };
                 match solver.fit(*self) {
                     Ok(r) => {
                         let calls = r.problem.model().probe.count();
@@ -249,7 +272,11 @@ macro_rules! impl_dynp {
         }
     };
     (@stats false, $self:ident, $lm:ident) => {{
-        let solver = LevMarSolver::<WM<T>, false>::with_solver($lm);
+        let solver = if $lm == LevenbergMarquardt::new() {
+            LevMarSolver::<WM<T>, false>::default()
+        } else {
+            LevMarSolver::<WM<T>, false>::with_solver($lm)
+        };
         match solver.fit_with_statistics(*$self) {
             Ok((r, st)) => {
                 let calls = r.problem.model().probe.count();
@@ -273,7 +300,11 @@ macro_rules! impl_dynp {
         }
     }};
     (@statsafter false, $self:ident, $first:ident, $lm:ident) => {{
-        let solver = LevMarSolver::<WM<T>, false>::with_solver($lm);
+        let solver = if $lm == LevenbergMarquardt::new() {
+            LevMarSolver::<WM<T>, false>::default()
+        } else {
+            LevMarSolver::<WM<T>, false>::with_solver($lm)
+        };
         if let Ok(f) = $first.into_any().downcast::<Self>() {
             let _ = solver.fit_with_statistics(*f);
         }
@@ -312,7 +343,12 @@ macro_rules! impl_dynp {
 fn stat_vals<T: Sc>(st: FitStatistics<WM<T>>) -> StatVals<T> {
     #[allow(deprecated)]
     let corr = st.calculate_correlation_matrix();
+    let st2 = st.clone();
     StatVals {
+        clone_covariance: st2.covariance_matrix().clone(),
+        clone_lin_var: guarded(|| st2.linear_coefficients_variance()),
+        clone_nonlin_var: guarded(|| st2.nonlinear_parameters_variance()),
+        clone_chi2: st2.reduced_chi2(),
         covariance: st.covariance_matrix().clone(),
         correlation: corr,
         weighted_residuals: st.weighted_residuals(),
